@@ -320,6 +320,15 @@ func (x *gg) term(d int) *rt.Term {
 }
 
 func (x *gg) term1(d int) *rt.Term {
+	if d >= 2 && u(x.t, 60, "manyvars") == 59 {
+		// many distinct variables, each occurring twice (the reader keeps the variables of a term in a table)
+		n := []int{9, 17, 33, 64, 65, 66, 80, 129, 257}[u(x.t, 9, "nvars")]
+		es := make([]*rt.Term, n)
+		for i := range es {
+			es[i] = rt.V(int64(100 + i))
+		}
+		return rt.C("f", rt.List(es, nil), rt.List(es, nil))
+	}
 	if d <= 0 {
 		switch u(x.t, 5, "leaf") {
 		case 0, 1:
@@ -484,7 +493,7 @@ func repeats(t *rt.Term) bool {
 func TestProp(t *testing.T) {
 	r := h.Start(t, "C06")
 	defer r.Finish(t)
-	r.Rule("rapid-generated terms built with the engine's constructors (so any atom text can occur): atoms from every lexical class - solo, graphic, alphanumeric, needing quotes, with escapes and control characters, empty, non-ASCII letters, non-letter Unicode (currency, emoji, NBSP, U+0085, U+2028, zero-width space, titlecase, non-ASCII digits), random runes; 64-bit integers incl. min/max; finite floats from raw bit patterns, powers of ten and their neighbours, subnormals, max, -0.0; shared variables; repeated compound subterms, as separate equal values or (half of the cases) as one Go value at several places, which is what a variable bound to a compound and used twice gives; compounds of arity 1-3 whose functors are drawn from the same pools (operators as atoms, operands and functors; prefix/infix/postfix; an atom that is prefix and infix at once); proper and partial lists; {}-terms; negative numbers as operands of operators; depth <= 4 - under an operator table produced by a generated sequence of 0-6 op/3 calls (priorities at the 699/700/701, 999/1000/1001, 1200 boundaries, every specifier, names drawn from the same atom pools so atoms of the term are current operators) x double_quotes in {codes, chars, atom} x write options {quoted(true); +ignore_ops(true) (write_canonical); +numbervars(true) (writeq, '$VAR'(N) excluded)}. Oracle (round trip): WriteTerm into memory, ' .' appended, ReadTerm under the same table and flags: the result must be identical to the original up to variable renaming, floats bit-for-bit. Second oracle: number_codes/2 and number_chars/2 there and back on generated numbers (passed as placeholders, read structurally). Non-trivial: the term contains a current operator, an atom needing quotes or a float, and has depth >= 2 (numbers: a float or an integer beyond 32 bits). Distinct by case.",
+	r.Rule("rapid-generated terms built with the engine's constructors (so any atom text can occur): atoms from every lexical class - solo, graphic, alphanumeric, needing quotes, with escapes and control characters, empty, non-ASCII letters, non-letter Unicode (currency, emoji, NBSP, U+0085, U+2028, zero-width space, titlecase, non-ASCII digits), random runes; 64-bit integers incl. min/max; finite floats from raw bit patterns, powers of ten and their neighbours, subnormals, max, -0.0; shared variables (also 9-257 distinct variables in one term, each occurring twice); repeated compound subterms, as separate equal values or (half of the cases) as one Go value at several places, which is what a variable bound to a compound and used twice gives; compounds of arity 1-3 whose functors are drawn from the same pools (operators as atoms, operands and functors; prefix/infix/postfix; an atom that is prefix and infix at once); proper and partial lists; {}-terms; negative numbers as operands of operators; depth <= 4 - under an operator table produced by a generated sequence of 0-6 op/3 calls (priorities at the 699/700/701, 999/1000/1001, 1200 boundaries, every specifier, names drawn from the same atom pools so atoms of the term are current operators) x double_quotes in {codes, chars, atom} x write options {quoted(true); +ignore_ops(true) (write_canonical); +numbervars(true) (writeq, '$VAR'(N) excluded)}. Oracle (round trip): WriteTerm into memory, ' .' appended, ReadTerm under the same table and flags: the result must be identical to the original up to variable renaming, floats bit-for-bit. Second oracle: number_codes/2 and number_chars/2 there and back on generated numbers (passed as placeholders, read structurally). Non-trivial: the term contains a current operator, an atom needing quotes or a float, and has depth >= 2 (numbers: a float or an integer beyond 32 bits). Distinct by case.",
 		"structural comparison through the Compound interface; the operator table is set up through engine.Op so the lexer is not on the set-up path")
 	r.Regress(t)
 	if r.Failed() {
